@@ -207,7 +207,10 @@ def corder(o):
 
 def to_coq(case, obs):
     if "write_exc" in obs:
-        return None
+        # the writer raised on a well-formed circuit: there is no text to read back, which is a failure of the property
+        exc = {"exc": obs["write_exc"]}
+        return (f"CRt {ccirc(case['circuit'])} {cb(case['behavioral'])} (Wo [] [] [] []) (Md \"\" [] []) [] [] "
+                f"{vu.cres_circ(exc)} {vu.cres_circ(exc)}")
     if "ast" not in obs:
         # the writer's text is not even a token stream of the grammar: print an empty module so that agree fails
         ast, order = {"name": "", "ports": [], "items": []}, {"ins": [], "outs": [], "bbs": [], "fi": []}
@@ -224,7 +227,8 @@ def nontrivial(case, obs):
 
 def classify(case, obs):
     d = case["circuit"]
-    tags = ["style:" + ("assign" if case["behavioral"] else "primitive"), "back:" + ("ok" if "ok" in obs.get("back", {}) else "exc")]
+    tags = ["style:" + ("assign" if case["behavioral"] else "primitive"),
+            "write:" + obs["write_exc"] if "write_exc" in obs else "back:" + ("ok" if "ok" in obs.get("back", {}) else "exc")]
     for n in d["nodes"]:
         if n[1] in lib.GATES:
             tags.append(f"{n[1]}/{len(n[3])}")
